@@ -22,3 +22,5 @@ def check(ctx):
     reporters.datadog(ctx, facts, "R3", "R4")
     reporters.otel(ctx, facts, "R5")
     reporters.once_each(ctx, facts, "R6")
+    from .. import jaeger
+    jaeger.rule_fresh_buffer(ctx, facts, "R6")
